@@ -235,7 +235,9 @@ class Judge:
                     continue
                 # relative required?
                 tr = t.repeat
-                if tr is not None and not exempt_abs and not in_ir:
+                # absolute by design are the node-name and repeat arguments of indexed-repeat() (#1, #2, #4, #6); an index argument (#3, #5, #7) is an
+                # ordinary expression evaluated at the referrer: the relative-path rule applies to the references in it
+                if tr is not None and not exempt_abs and not (in_ir and ir_arg in (None, 0, 1, 3, 5)):
                     rp = repeat_path(self.rm, tr)
                     if ctxp.startswith(rp + "/"):
                         self.ctx.viol(f"{cellkind}:absolute-where-relative-required:{sig_rel}",
@@ -681,6 +683,15 @@ def multi_call_forms():
         "if(${mc} > 1, indexed-repeat(${ma}, ${mr}, ${mc} - 1), ${mb}) - ${mpos}",
         "concat(indexed-repeat(${ma}, ${mr}, 1), ')', ${mc}, indexed-repeat(${mb}, ${mr}, 2), ${mpos})",
         "indexed-repeat(${ma}, ${mr}, count(${mr})) + ${mb}",
+        # quoted text inside an argument that holds parentheses or commas: a string literal is not call syntax
+        "indexed-repeat(${ma}, ${mr}, if(contains(${mb}, ')'), ${mpos}, 1))",
+        "indexed-repeat(${ma}, ${mr}, if(${mb} = '(', ${mpos}, ${mc}))",
+        "indexed-repeat(${ma}, ${mr}, if(contains(${mb}, \"a, b)\"), ${mpos}, 1)) + ${mc}",
+        "indexed-repeat(${ma}, ${mr}, if(${mb} = ',', ${mpos}, 1), ${mr}, 1)",
+        "concat('indexed-repeat(', ${mb}, ')') != indexed-repeat(${ma}, ${mr}, ${mpos})",
+        "indexed-repeat(${ma}, ${mr}, if(contains(${mb}, ')'), ${mpos}, 1), ${mr}, 2)",
+        "indexed-repeat(${ma}, ${mr}, if(${mb} = ') (', ${mpos}, 1), ${mr}, if(${mc} = \"(\", 1, 2), ${mr}, 3)",
+        "indexed-repeat(${ma}, ${mr}, string-length('((') , ${mr}, 2)",
     ]
     for k, expr in enumerate(exprs):
         for col in ("calculation", "relevant", "constraint"):
